@@ -116,8 +116,8 @@ def run(ctx):
                             'pushed through parse -> dump (both formats) -> parse -> dump; distinct by source document')
     docs = []
     for _ in range(n):
-        ver = rng.choice(['2.0', '3.0', '3.0', '3.0', '2.5', '3.0.0', '1.0', '4.0'])
-        base = '2.0' if ver in ('2.0', '1.0') else '3.0'
+        ver = rng.choice(['2.0', '3.0', '3.0', '3.0', '2.5', '3.0.0', '1.0', '4.0', '3', '2', '4', '3.1', '2.0.0'])
+        base = '2.0' if ver in ('2.0', '1.0', '2', '2.0.0') else '3.0'
         if rng.random() < 0.5:
             t, _ = c03.spell_grid(rng, base, rng.choice([0, 1, 2]))
             docs.append((h.MODE_ZINC, t.replace('ver:"%s"' % base, 'ver:"%s"' % ver, 1)))
